@@ -1566,15 +1566,15 @@ type cexpr =
 | CLam of nat * cexpr
 | COp of char list * cexpr list
 
-(** val all_some : 'a1 option list -> 'a1 list option **)
+(** val map_opt : ('a1 -> 'a2 option) -> 'a1 list -> 'a2 list option **)
 
-let rec all_some = function
+let rec map_opt f = function
 | [] -> Some []
-| o :: r ->
-  (match o with
-   | Some a ->
-     (match all_some r with
-      | Some r' -> Some (a :: r')
+| a :: r ->
+  (match f a with
+   | Some b ->
+     (match map_opt f r with
+      | Some r' -> Some (b :: r')
       | None -> None)
    | None -> None)
 
@@ -1603,7 +1603,7 @@ let rec resolve0 fuel fr d e =
         | _ ->
           (match resolve0 f fr d g with
            | Some rg ->
-             (match all_some (map (resolve0 f fr d) args) with
+             (match map_opt (resolve0 f fr d) args with
               | Some ra -> Some (CCall (rg, ra))
               | None -> None)
            | None -> None))
@@ -1613,8 +1613,7 @@ let rec resolve0 fuel fr d e =
            ((define_all ps (map (fun x -> BVal x) (seq d (length ps))) []) :: fr)
            (add d (length ps)) body)
      | EOp (op, args) ->
-       option_map (fun x -> COp (op, x))
-         (all_some (map (resolve0 f fr d) args)))
+       option_map (fun x -> COp (op, x)) (map_opt (resolve0 f fr d) args))
 
 (** val empty_stack : frames **)
 
